@@ -6,7 +6,7 @@
    units really are atomic and that nothing else is shared — i.e. absence of data races in the C++
    memory model — is supported by ThreadSanitizer runs of the real code, not proved.
    Statements only. *)
-From RLBoxV Require Import Threads Threads_proofs World.
+From RLBoxV Require Import Threads Threads_proofs World ThreadRec ThreadRec_proofs.
 Local Open Scope Z_scope.
 
 (* non-interference: thread t's program, its sequence of observations (results of its status
@@ -49,3 +49,23 @@ Example C18_example :
   ctrace (crun reg c0 sched) 0%nat = [OOk; OOk; OOk; OFound (Some 0%nat); OOk; OOk; OOk; OFound None] /\
   ctrace (crun reg c0 sched) 1%nat = [OOk; OOk; OOk; OFound (Some 1%nat); OOk; OOk; OOk; OFound None].
 Proof. vm_compute. split; reflexivity. Qed.
+
+Local Open Scope nat_scope.
+(* the back end's record of the currently executing sandbox (saved / set / restored around every invocation, read by the
+   callback trampolines): with one record per thread - library-provided or embedder-provided thread-local storage - every
+   thread, under EVERY schedule, ends exactly where it ends alone after the same number of its own steps: each callback
+   dispatch consults the sandbox that thread entered.  One process-wide record is refuted. *)
+Theorem C18_thread_record : forall sched c t,
+  ThreadRec.run false c sched t = iter_solo (count_tid t sched) (c t).
+Proof. exact record_per_thread_noninterference. Qed.
+Print Assumptions C18_thread_record.
+Theorem C18_shared_record_refuted :
+  let c0 : ThreadRec.config := fun t => match t with
+                              | 0 => {| cellv := None; saved := []; todo := [REnter 10; RDispatch; RLeave]; seen := [] |}
+                              | 1 => {| cellv := None; saved := []; todo := [REnter 11; RDispatch; RLeave]; seen := [] |}
+                              | _ => {| cellv := None; saved := []; todo := []; seen := [] |}
+                              end in
+  seen (ThreadRec.run true c0 [0; 1; 0; 1; 0; 1] 0) = [Some 11] /\
+  seen (iter_solo 3 (c0 0)) = [Some 10] /\
+  seen (ThreadRec.run false c0 [0; 1; 0; 1; 0; 1] 0) = [Some 10].
+Proof. exact shared_record_refuted. Qed.
